@@ -1,5 +1,144 @@
-import Banyan.Model.Util
-open Banyan
+import Banyan.Model.C09
+open Banyan Banyan.C09
 
-/- stub: model driver for C09 not built yet -/
-def main : IO Unit := runDriver fun _ => "bad-op"
+/-! Line-protocol driver of the C09 model; formats mirror hooks/banyand/internal/verifdrv/c09/main.go. -/
+
+def joinOr (dash : String) (sep : String) (l : List String) : String :=
+  if l.isEmpty then dash else sep.intercalate l
+
+-- ---------------------------------------------------------------- sort
+
+def parseItem (s : String) : Option (List Byte × String) :=
+  match s.splitOn ":" with
+  | [k, id] => (bytesOfHex k).map fun b => (b, id)
+  | _ => none
+
+def parseIter (s : String) : Option (List (List Byte × String)) :=
+  if s == "-" then some [] else (s.splitOn ",").mapM parseItem
+
+def doSort (dir spec : String) : String :=
+  match (spec.splitOn "|").mapM parseIter with
+  | none => "bad-op"
+  | some iters =>
+    let out := kmerge (fun a b => bytesLt (dir == "desc") a.1 b.1) iters
+    joinOr "-" "," (out.map fun (k, id) => hexOrDash k ++ ":" ++ id)
+
+-- ---------------------------------------------------------------- sidx
+
+def parseElem (s : String) : Option Elem :=
+  match s.splitOn ":" with
+  | [sid, key, data] =>
+    match sid.toNat?, key.toInt? with
+    | some a, some k => some { sid := a, key := k, data := data }
+    | _, _ => none
+  | _ => none
+
+def parseIds (s : String) : Option (List Nat) := (s.splitOn "+").mapM (·.toNat?)
+
+def parseOp (s : String) : Option Op :=
+  match s.toList with
+  | 'W' :: r =>
+    match (String.ofList r).splitOn "=" with
+    | [pid, es] =>
+      match pid.toNat?, (es.splitOn ",").mapM parseElem with
+      | some p, some l => some (.write p l)
+      | _, _ => none
+    | _ => none
+  | 'F' :: r => (parseIds (String.ofList r)).map .flush
+  | 'M' :: r =>
+    match (String.ofList r).splitOn "=" with
+    | [nid, ids] =>
+      match nid.toNat?, parseIds ids with
+      | some n, some l => some (.merge n l)
+      | _, _ => none
+    | _ => none
+  | _ => none
+
+def parseBound (s : String) : Option (Option Int) :=
+  if s == "*" then some none else s.toInt?.map some
+
+def parseReq (s : String) : Option Req :=
+  match s.splitOn ";" with
+  | [dir, mbs, lo, hi, sids] =>
+    match mbs.toNat?, parseBound lo, parseBound hi, parseIds sids with
+    | some m, some l, some h, some ss =>
+      some { sids := ss, minKey := l, maxKey := h, asc := dir != "desc", maxBatch := m }
+    | _, _, _, _ => none
+  | _ => none
+
+def showLayout (snap : List Part) : String :=
+  " ".intercalate (snap.map fun p =>
+    toString p.id ++ "[" ++ ";".intercalate (p.blocks.map fun b =>
+      s!"{b.sid}:{b.lo}:{b.hi}:{b.elems.length}") ++ "]")
+
+def showBatches (bs : List (List Elem)) : String :=
+  joinOr "-" "/" (bs.map fun b => joinOr "_" "," (b.map fun e => s!"{e.key}:{e.data}:{e.sid}"))
+
+def doSidx (fields : List String) : String :=
+  let ops := fields.takeWhile (· ≠ "Q")
+  let qs := (fields.dropWhile (· ≠ "Q")).drop 1
+  match ops.mapM parseOp, qs.mapM parseReq with
+  | some os, some rs =>
+    let snap := applyOps os
+    " | ".intercalate (("L " ++ showLayout snap) :: rs.map fun r =>
+      "S " ++ showBatches (streamingQuery r snap) ++ " Y " ++ showBatches (querySync r snap))
+  | _, _ => "bad-op"
+
+-- ---------------------------------------------------------------- measure merge, stream merge, top queue
+
+def parseDP (s : String) : Option DP :=
+  match s.splitOn ":" with
+  | [ts, sid, ver, val] =>
+    match ts.toNat?, sid.toNat?, ver.toInt?, val.toInt? with
+    | some a, some b, some c, some d => some { ts := a, sid := b, ver := c, val := d }
+    | _, _, _, _ => none
+  | _ => none
+
+def parseNode (s : String) : Option (List DP) :=
+  if s == "-" then some [] else (s.splitOn ",").mapM parseDP
+
+def doMMerge (dir off lim spec : String) : String :=
+  match off.toNat?, lim.toNat?, (spec.splitOn "|").mapM parseNode with
+  | some o, some l, some nodes =>
+    joinOr "-" "," ((mmerge (dir == "desc") o l nodes).map fun d => s!"{d.ts}:{d.sid}:{d.ver}:{d.val}")
+  | _, _, _ => "bad-op"
+
+def parseSE (s : String) : Option (Nat × String) :=
+  match s.splitOn ":" with
+  | [ts, id] => ts.toNat?.map fun t => (t, id)
+  | _ => none
+
+def parseGroup (s : String) : Option (List (Nat × String)) :=
+  if s == "-" then some [] else (s.splitOn ",").mapM parseSE
+
+def doSMerge (dir spec : String) : String :=
+  match (spec.splitOn "|").mapM parseGroup with
+  | some gs =>
+    let desc := dir == "desc"
+    let out := kmerge (fun (a b : Nat × String) => if desc then decide (a.1 > b.1) else decide (a.1 < b.1)) gs
+    joinOr "-" "," (out.map fun (t, id) => s!"{t}:{id}")
+  | none => "bad-op"
+
+def doTopQ (n kind vals : String) : String :=
+  match n.toNat?, (if vals == "-" then some [] else (vals.splitOn ",").mapM (·.toInt?)) with
+  | some k, some xs =>
+    let rev := kind == "bot"
+    match topRun k rev xs ([], []) with
+    | none => "PANIC"
+    | some (acc, h) =>
+      joinOr "-" "" (acc.map fun b => if b then "1" else "0") ++ " " ++
+        joinOr "-" "," ((topElements rev h).map toString)
+  | _, _ => "bad-op"
+
+def handle (line : String) : String :=
+  match words line with
+  | ["sort", dir, spec] => doSort dir spec
+  | "sidx" :: rest => doSidx rest
+  | "sidxdup" :: rest => doSidx rest
+  | "sidxf11" :: rest => doSidx rest
+  | ["mmerge", dir, off, lim, spec] => doMMerge dir off lim spec
+  | ["smerge", dir, spec] => doSMerge dir spec
+  | ["topq", n, kind, vals] => doTopQ n kind vals
+  | _ => "bad-op"
+
+def main : IO Unit := runDriver handle
